@@ -286,6 +286,56 @@ class _WBuf(io.StringIO):
         return self
 
 
+PATH = "/data/f.csv"
+
+
+def cacher_history(idx, stdlib, headers, between=None, recount_headers=None, extra=None):
+    """One file through two lives of a FileCacher on one model disk, through the public accessors only: a cold request (nothing in
+    memory, nothing on disk), then `between(fs, state)`, then the same requests with nothing in memory (a new process) — what is left
+    is the cache directory.  Returns (fs, paths); a path's result is (headers1, monitor1, headers2, monitor2); the calls recorded are
+    ("count", phase) for every LineCounter run and ("load", json) for every LineMonitor.load."""
+    fs = ModelFS()
+    state = {"phase": 1}
+    h = dict(stdlib)
+    h["open"] = fs.open
+    h["LineMonitor"] = lambda i, c, r, a, k: Obj("LM_LOADED")
+    h["LM_LOADED.load"] = lambda i, c, r, a, k: i.record_call("load", a[0])
+    h["LM_LOADED.copy"] = lambda i, c, r, a, k: Obj("COPY_OF_LOADED")
+    h["LineCounter"] = lambda i, c, r, a, k: Obj("lc")
+
+    def count(i, c, r, a, k):
+        i.record_call("count", state["phase"])
+        return (Obj("COUNTED"), list(headers if state["phase"] == 1 or recount_headers is None else recount_headers))
+
+    h["lc.get_lines_and_headers"] = count
+    h["COUNTED.dump"] = lambda i, c, r, a, k: '{"n": 1}'
+    h["COUNTED.copy"] = lambda i, c, r, a, k: Obj("COPY_OF_COUNTED")
+    h["self.cache._cachedir"] = lambda i, c, r, a, k: "CACHE"
+    h.update(extra(fs, state) if extra else {})
+    fa = idx.method("FileCacher", "get_original_headers")
+    fm = idx.method("FileCacher", "get_new_line_monitor")
+
+    def program(it):
+        fs.files.clear()
+        state["phase"] = 1
+        state.pop("changed", None)
+        r1 = it.call_function(fa, {"__pos__": [PATH]}, "self")
+        m1 = it.call_function(fm, {"__pos__": [PATH]}, "self")
+        if between:
+            between(fs, state)
+        state["phase"] = 2
+        it.store["self.pathed_lines_and_headers"] = {}
+        r2 = it.call_function(fa, {"__pos__": [PATH]}, "self")
+        m2 = it.call_function(fm, {"__pos__": [PATH]}, "self")
+        return r1, m1, r2, m2
+
+    it = Interp(idx, types={"self": "FileCacher", "self.cache": "Cache"}, inline_all={"FileCacher", "Cache"}, handlers=h, unknown_calls="residual")
+    # the owner runs with a non-default dialect: the cache must round-trip whatever the run's delimiter/quotechar are
+    ps = it.run_program(program, {"self.pathed_lines_and_headers": {}, "self.csvpaths.delimiter": ";", "self.csvpaths.quotechar": "'",
+                                  "self.cache.csvpaths.delimiter": ";", "self.cache.csvpaths.quotechar": "'"})
+    return fs, ps
+
+
 def r2(idx, rep):
     fw = idx.method("FileCacher", "_cache_lines_and_headers")
     fr = idx.method("FileCacher", "_cached_lines_and_headers")
@@ -311,66 +361,49 @@ def r2(idx, rep):
     # tables that are not about the file's state run on a path that cannot be stat'ed (the cache then keys on the path alone)
     for nm in ("os.stat", "os.path.getmtime", "os.path.getsize"):
         stdlib[nm] = _nofile
+    fa = idx.method("FileCacher", "get_original_headers")
+    rep.analysed(fa, idx.method("FileCacher", "get_new_line_monitor"))
     bad = None
+    badl = None
     for hs in header_sets:
-        fs = ModelFS()
-        h = dict(stdlib)
-        h["open"] = fs.open
-        h["self._cachedir"] = lambda i, c, r, a, k: "CACHE"
-        h["lm.dump"] = lambda i, c, r, a, k: "{}"
-
-        def program(it, hs=hs):
-            it.call_function(fw, {"__pos__": ["/data/f.csv", Obj("lm"), list(hs)]}, "self")
-            return it.call_function(cr, {"__pos__": ["/data/f.csv", "csv"]}, "self.cache")
-
-        it = Interp(idx, types={"self": "FileCacher", "self.cache": "Cache"}, inline={"Cache.cache_text", "Cache.cached_text", "Cache._cache_name", "FileCacher._cache_lines_and_headers"},
-                    handlers=dict(h, **{"self.cache._cachedir": lambda i, c, r, a, k: "CACHE"}), unknown_calls="residual")
-        # the owner runs with a non-default dialect: the cache must round-trip whatever the run's delimiter/quotechar are
-        ps = it.run_program(program, {"self.csvpaths.delimiter": ";", "self.csvpaths.quotechar": "'", "self.cache.csvpaths.delimiter": ";", "self.cache.csvpaths.quotechar": "'"})
+        fs, ps = cacher_history(idx, stdlib, hs)
         if len(ps) != 1 or ps[0].result[0] != "return":
-            bad = bad or f"headers {hs}: {[p.result for p in ps]}"
+            bad = bad or f"headers {hs}: {[p.result for p in ps][:2]}"
             continue
-        got = ps[0].result[1]
-        if got != hs:
-            bad = bad or f"headers {hs!r} are cached as {list(fs.files.values())[-1]!r} and read back as {got!r}: a warm cache gives a later process different headers than the cold run"
+        r1, m1, r2_, m2 = ps[0].result[1]
+        counts = [v for kk, v in ps[0].calls("count")]
+        if r1 != hs or r2_ != hs:
+            csvs = [v for k, v in fs.files.items() if k.endswith(".csv")]
+            bad = bad or (f"headers {hs!r} are cached as {csvs[-1] if csvs else None!r} and read back as {r2_!r} (cold run: {r1!r}): a warm cache gives a later process "
+                          "different headers than the cold run")
+        elif counts != [1]:
+            bad = bad or f"headers {hs!r}: LineCounter runs in phases {counts}; documented: once, cold (the second process is served from the cache)"
+        loads = [v for kk, v in ps[0].calls("load")]
+        if not (m1 == Obj("COPY_OF_COUNTED") and m2 == Obj("COPY_OF_LOADED") and loads and all(x == '{"n": 1}' for x in loads)):
+            badl = badl or f"cold monitor {m1!r}, warm monitor {m2!r}, LineMonitor.load called with {loads}; documented: the counted monitor's dump() is what the warm process load()s, and both hand out copies"
     rep.check(bad is None, "R2", f"{fw.file}::header cache round trip", bad or f"{len(header_sets)} header lists", K.where(fw, fw.node))
-    # which cache states are a hit: only a complete entry (line counts AND headers). After writing a complete entry one of the two
+    rep.check(badl is None, "R2", f"{fw.file}::line monitor cache uses dump/load", badl or "", K.where(fw, fw.node))
+    # which cache states are a hit: only a complete entry (line counts AND headers). After a complete entry was written one of the two
     # files is removed (an interrupted earlier process, a cleaned cache directory): the cacher must count the file again
-    ff = idx.method("FileCacher", "_find_lines_and_headers")
+    ff = idx.method("FileCacher", "_find_lines_and_headers") if idx.has_method("FileCacher", "_find_lines_and_headers") else fa
     rep.analysed(ff)
     bad = None
     for drop in ((), ("json",), ("csv",), ("json", "csv")):
-        fs = ModelFS()
-        h = dict(stdlib)
-        h["open"] = fs.open
-        h["lm.dump"] = lambda i, c, r, a, k: '{"n": 1}'
-        h["LineMonitor"] = lambda i, c, r, a, k: Obj("LM2")
-        h["LM2.load"] = lambda i, c, r, a, k: i.record_call("load", a[0])
-        h["LineCounter"] = lambda i, c, r, a, k: Obj("lc")
-        h["lc.get_lines_and_headers"] = lambda i, c, r, a, k: (i.record_call("count"), (Obj("COUNTED"), ["a", "b"]))[1]
-        h["COUNTED.dump"] = lambda i, c, r, a, k: '{"n": 1}'
-
-        def program(it, drop=drop, fs=fs):
-            it.call_function(fw, {"__pos__": ["/data/f.csv", Obj("lm"), ["a", "b"]]}, "self")
+        def between(fs, state, drop=drop):
             for suffix in drop:
                 for k in [k for k in fs.files if k.endswith("." + suffix)]:
                     del fs.files[k]
-            it.call_function(ff, {"__pos__": ["/data/f.csv"]}, "self")
-            return it.store.get("self.pathed_lines_and_headers", {}).get("/data/f.csv")
-
-        it = Interp(idx, types={"self": "FileCacher", "self.cache": "Cache"}, inline_all={"FileCacher"},
-                    inline={"Cache.cache_text", "Cache.cached_text", "Cache._cache_name"},
-                    handlers=dict(h, **{"self.cache._cachedir": lambda i, c, r, a, k: "CACHE"}), unknown_calls="residual")
-        ps = it.run_program(program, {"self.pathed_lines_and_headers": {}})
-        for p in ps:
-            counted = bool(p.calls("count"))
-            if p.result[0] != "return":
-                bad = bad or f"cache entry without {list(drop)}: {p.result}"
-            elif counted != bool(drop):
-                bad = bad or (f"cache entry with {'nothing' if not drop else ' and '.join(drop)} missing: the file is {'counted again' if counted else 'NOT counted again'} "
-                              f"and the cacher keeps {p.result[1]!r}; only a complete entry (line counts and headers) is a hit")
-            elif p.result[1] is None or p.result[1][1] != ["a", "b"]:
-                bad = bad or f"cache entry without {list(drop)}: headers kept are {p.result[1]!r}, documented ['a', 'b']"
+        fs, ps = cacher_history(idx, stdlib, ["a", "b"], between=between)
+        if len(ps) != 1 or ps[0].result[0] != "return":
+            bad = bad or f"cache entry without {list(drop)}: {[p.result for p in ps][:2]}"
+            continue
+        r1, m1, r2_, m2 = ps[0].result[1]
+        counted = 2 in [v for kk, v in ps[0].calls("count")]
+        if counted != bool(drop):
+            bad = bad or (f"cache entry with {'nothing' if not drop else ' and '.join(drop)} missing: the file is {'counted again' if counted else 'NOT counted again'} "
+                          f"and the second process gets headers {r2_!r}; only a complete entry (line counts and headers) is a hit")
+        elif r2_ != ["a", "b"]:
+            bad = bad or f"cache entry without {list(drop)}: headers served are {r2_!r}, documented ['a', 'b']"
     rep.check(bad is None, "R2", f"{ff.file}::FileCacher._find_lines_and_headers partial cache entries", bad or "4 cache states", K.where(ff, ff.node))
     # a cache entry describes one state of the file: after the file at that path was rewritten (other size / modification time) the
     # entry of the earlier content must not be served (a later job on the same path would get the earlier job's line counts and headers)
@@ -383,44 +416,36 @@ def r2(idx, rep):
 
     bad = None
     for change in ("unchanged", "rewritten"):
-        fs = ModelFS()
-        state = {"stat": _Stat(8, 1000)}
-        h = dict(stdlib)
-        h["open"] = fs.open
-        h["lm.dump"] = lambda i, c, r, a, k: '{"n": 1}'
-        h["LineMonitor"] = lambda i, c, r, a, k: Obj("LM2")
-        h["LM2.load"] = lambda i, c, r, a, k: None
-        for nm in ("os.stat", "os.path.getmtime", "os.path.getsize"):
-            def _st(i, c, r, a, k, nm=nm, state=state):
-                if a[0] != "/data/f.csv":
-                    raise Raised("FileNotFoundError")
-                st = state["stat"]
-                if nm == "os.stat":
-                    for f in ("st_size", "st_mtime_ns", "st_mtime"):
-                        i.store["STAT." + f] = getattr(st, f)
-                    return Obj("STAT")
-                return st.st_mtime if nm.endswith("getmtime") else st.st_size
-            h[nm] = _st
-        h["os.path.exists"] = lambda i, c, r, a, k: a[0] == "/data/f.csv" or a[0] in fs.files
+        def extra(fs, state):
+            hx = {}
+            for nm in ("os.stat", "os.path.getmtime", "os.path.getsize"):
+                def _st(i, c, r, a, k, nm=nm):
+                    if a[0] != PATH:
+                        raise Raised("FileNotFoundError")
+                    st = _Stat(30, 2000) if state.get("changed") else _Stat(8, 1000)
+                    if nm == "os.stat":
+                        for f in ("st_size", "st_mtime_ns", "st_mtime"):
+                            i.store["STAT." + f] = getattr(st, f)
+                        return Obj("STAT")
+                    return st.st_mtime if nm.endswith("getmtime") else st.st_size
+                hx[nm] = _st
+            hx["os.path.exists"] = lambda i, c, r, a, k: a[0] == PATH or a[0] in fs.files
+            return hx
 
-        def program(it, change=change, state=state):
-            it.call_function(fw, {"__pos__": ["/data/f.csv", Obj("lm"), ["a", "b"]]}, "self")
+        def between(fs, state, change=change):
             if change == "rewritten":
-                state["stat"] = _Stat(30, 2000)
-            return it.call_function(fr, {"__pos__": ["/data/f.csv"]}, "self")
-
-        it = Interp(idx, types={"self": "FileCacher", "self.cache": "Cache"}, inline_all={"FileCacher", "Cache"},
-                    handlers=dict(h, **{"self.cache._cachedir": lambda i, c, r, a, k: "CACHE"}), unknown_calls="residual")
-        ps = it.run_program(program, {"self.pathed_lines_and_headers": {}})
-        for p in ps:
-            hit = p.result[0] == "return" and isinstance(p.result[1], tuple) and p.result[1][0] is not None
-            if p.result[0] != "return":
-                bad = bad or f"file {change}: {p.result}"
-            elif change == "unchanged" and not (hit and p.result[1][1] == ["a", "b"]):
-                bad = bad or f"file unchanged since it was cached: the entry is not found ({p.result[1]!r})"
-            elif change == "rewritten" and hit:
-                bad = bad or ("the file at the cached path was rewritten (size 8 → 30, later modification time) and the cache still serves the earlier content's "
-                              f"line counts and headers {p.result[1][1]!r}: a run on the new content stops at the old line count and resolves #names against the old headers")
+                state["changed"] = True
+        fs, ps = cacher_history(idx, stdlib, ["a", "b"], between=between, recount_headers=["c", "d"], extra=extra)
+        if len(ps) != 1 or ps[0].result[0] != "return":
+            bad = bad or f"file {change}: {[p.result for p in ps][:2]}"
+            continue
+        r1, m1, r2_, m2 = ps[0].result[1]
+        recounted = 2 in [v for kk, v in ps[0].calls("count")]
+        if change == "unchanged" and (recounted or r2_ != ["a", "b"]):
+            bad = bad or f"file unchanged since it was cached: the entry is not found (counted again: {recounted}, headers {r2_!r})"
+        elif change == "rewritten" and (not recounted or r2_ != ["c", "d"]):
+            bad = bad or ("the file at the cached path was rewritten (size 8 → 30, later modification time) and the cache still serves the earlier content's "
+                          f"line counts and headers {r2_!r}: a run on the new content stops at the old line count and resolves #names against the old headers")
     rep.check(bad is None, "R2", f"{fr.file}::cache entries are tied to the file's state", bad or "2 histories", K.where(cr, cr.node))
     # cache key: distinct paths (also with the same file name) get distinct keys; the same path the same key
     fn = idx.method("Cache", "_cache_name")
@@ -460,18 +485,6 @@ def r2(idx, rep):
         if ckeys.get(f) not in (f"self.{pub}", f"self.{f}"):
             bad.append(f"copy: {f} <- {ckeys.get(f)}")
     rep.check(not bad and len(fields) == 8, "R2", f"{ci.file}::LineMonitor dump/load/copy agree", "; ".join(bad) or f"{len(fields)} fields", ci.file)
-    # the cached monitor is the one dumped: json via lm.dump / lm.load
-    wrote = {}
-    _, ps = K.sym_result(idx, "FileCacher", "_cache_lines_and_headers", args={"__pos__": ["f.csv", Obj("lm"), ["a"]]},
-                         store={"self.csvpaths.delimiter": ";", "self.csvpaths.quotechar": "'"},
-                         handlers={"lm.dump": lambda i, c, r, a, k: "DUMP", "self.cache.cache_text": lambda i, c, r, a, k: wrote.__setitem__(a[1], a[2]),
-                                   "io.StringIO": lambda i, c, r, a, k: io.StringIO(), "csv.writer": lambda i, c, r, a, k: csv.writer(*a, **k)})
-    loaded = []
-    _, ps2 = K.sym_result(idx, "FileCacher", "_cached_lines_and_headers", args={"filename": "f.csv"},
-                          handlers={"LineMonitor": lambda i, c, r, a, k: Obj("LM"), "LM.load": lambda i, c, r, a, k: loaded.append(a[0]),
-                                    "self.cache.cached_text": lambda i, c, r, a, k: {"json": "DUMP", "csv": ["a"]}[a[1]]})
-    okl = wrote.get("json") == "DUMP" and loaded == ["DUMP"] and len(ps2) == 1 and ps2[0].result == ("return", (Obj("LM"), ["a"]))
-    rep.check(okl, "R2", f"{fw.file}::line monitor cache uses dump/load", f"wrote {wrote.get('json')!r}, loaded {loaded}, returned {ps2[0].result if ps2 else None}", K.where(fw, fw.node))
 
 
 def r4(idx, rep):
@@ -492,21 +505,38 @@ def r4(idx, rep):
             if not (okl and okh):
                 bad = bad or f"managed: line_monitor {lm}, headers {hd}"
     rep.check(bad is None, "R4", f"{fi.file}::CsvPath.get_total_lines_and_headers sources", bad or "", K.where(fi, fi.node))
-    # the cacher's cold path is the same LineCounter
-    ev = []
-    ff, ps = K.sym_result(idx, "FileCacher", "_find_lines_and_headers", args={"filename": "f.csv"}, store={"self.pathed_lines_and_headers": {}},
-                          handlers={"self._cached_lines_and_headers": lambda i, c, r, a, k: (None, None), "LineCounter": lambda i, c, r, a, k: Obj("lc"),
-                                    "lc.get_lines_and_headers": lambda i, c, r, a, k: (ev.append(("count", a[0])), (Obj("LM"), ["h"]))[1],
-                                    "self._cache_lines_and_headers": lambda i, c, r, a, k: ev.append(("cache", a[0], a[1], a[2]))})
-    held = ps[0].final_store.get("self.pathed_lines_and_headers", {}).get("f.csv") if len(ps) == 1 else None
-    rep.check(ev == [("count", "f.csv"), ("cache", "f.csv", Obj("LM"), ["h"])] and held == (Obj("LM"), ["h"]), "R4",
-              f"{ff.file}::FileCacher cold path counts with LineCounter, caches and keeps exactly that", f"{ev}, kept {held}", K.where(ff, ff.node))
-    ev2 = []
-    _, ps = K.sym_result(idx, "FileCacher", "_find_lines_and_headers", args={"filename": "f.csv"}, store={"self.pathed_lines_and_headers": {}},
-                         handlers={"self._cached_lines_and_headers": lambda i, c, r, a, k: (Obj("WARM"), ["w"]), "LineCounter": lambda i, c, r, a, k: (ev2.append("count"), Obj("lc"))[1],
-                                   "self._cache_lines_and_headers": lambda i, c, r, a, k: ev2.append("cache")})
-    held = ps[0].final_store.get("self.pathed_lines_and_headers", {}).get("f.csv") if len(ps) == 1 else None
-    rep.check(ev2 == [] and held == (Obj("WARM"), ["w"]), "R4", f"{ff.file}::FileCacher warm path uses the cached pair", f"{ev2}, kept {held}", K.where(ff, ff.node))
+    # the cacher's cold path is the same LineCounter; the warm path serves the cached pair (public accessors, two lives on one model disk)
+    import io as _io
+    import csv as _csv
+    import hashlib as _hl
+
+    def _safe(fn):
+        def h(i, c, r, a, k):
+            try:
+                return fn(*a, **k)
+            except Exception as ex:  # pylint: disable=W0718
+                raise Raised(type(ex).__name__)
+        return h
+
+    def _nofile(i, c, r, a, k):
+        raise Raised("FileNotFoundError")
+
+    stdlib = {"io.StringIO": lambda i, c, r, a, k: _io.StringIO(*a), "csv.writer": _safe(_csv.writer), "csv.reader": _safe(_csv.reader),
+              "hashlib.sha256": lambda i, c, r, a, k: _hl.sha256(*a), "os.path.join": lambda i, c, r, a, k: "/".join(a),
+              "os.path.basename": lambda i, c, r, a, k: (a[0].rpartition("/")[2] if isinstance(a[0], str) else Residual(f"os.path.basename({a[0]})")),
+              "os.stat": _nofile, "os.path.getmtime": _nofile, "os.path.getsize": _nofile}
+    fs, ps = cacher_history(idx, stdlib, ["h"])
+    ff = idx.method("FileCacher", "get_new_line_monitor")
+    okc = len(ps) == 1 and ps[0].result[0] == "return"
+    d = f"{[p.result for p in ps][:2]}"
+    if okc:
+        r1, m1, r2_, m2 = ps[0].result[1]
+        counts = [v for kk, v in ps[0].calls("count")]
+        okc = r1 == ["h"] and m1 == Obj("COPY_OF_COUNTED") and counts == [1] and len(fs.files) == 2
+        d = f"cold: headers {r1!r}, monitor {m1!r}, LineCounter phases {counts}, cache files {sorted(fs.files)}"
+    rep.check(okc, "R4", f"{ff.file}::FileCacher cold path counts with LineCounter, caches and keeps exactly that", d, K.where(ff, ff.node))
+    okw = len(ps) == 1 and ps[0].result[0] == "return" and ps[0].result[1][2] == ["h"] and ps[0].result[1][3] == Obj("COPY_OF_LOADED")
+    rep.check(okw, "R4", f"{ff.file}::FileCacher warm path uses the cached pair", f"{ps[0].result if ps else None}", K.where(ff, ff.node))
 
 
 def r5(idx, rep):
